@@ -108,6 +108,45 @@ def c05_magic(ctx, case):
     c05_grid(ctx, case)
 
 
+# ---- long records -----------------------------------------------------------------------------------------------------------
+@st.composite
+def longrec_case(draw):
+    row = draw(st.sampled_from(MAGIC_ROWS))
+    cplx = draw(st.booleans())
+    n = draw(st.one_of(st.integers(512, 1200), st.sampled_from([512, 513, 1000, 1024, 1025])))
+    x = draw(gen.signal(dtype="complex" if cplx else "real", kinds=("noise", "ar", "tones"), n=n, noise_levels=(0.1, 1.0), units=False))
+    x = est.sanitize(row, x)
+    p = draw(est.params(row, 40, cplx))
+    # pairs of grids on either side of the record length (and of record length + model order)
+    pair = draw(st.sampled_from([[n, 2], [n, 3], [(n + 1) // 2, 2], [(n + 2) // 3, 3], [n + 1, 2], [n - 1, 2], [n + 40, 2]]))
+    return {"row": row, "x": x, "params": p, "nfft": max(pair[0], est.min_nfft(row, n, p)), "c": pair[1]}
+
+
+def enum_longrec(tier):
+    fixed = {"pminvar": {"order": 6}, "pburg": {"order": 7}, "pyule": {"order": 5}, "pcovar": {"order": 4}, "pmodcovar": {"order": 6},
+             "pma": {"Q": 3, "M": 12}, "parma": {"P": 3, "Q": 2, "lag": 14}}
+    for row in MAGIC_ROWS:
+        for cplx in (False, True):
+            for n in (600, 1025):
+                for j, pair in enumerate([[n, 2], [n, 3], [(n + 1) // 2, 2], [n + 1, 2], [n - 1, 2], [n + 40, 2]]):
+                    x = {"kind": "ar" if j % 2 else "noise", "n": n, "complex": cplx, "seed": 77 + 13 * j + n, "noise": 1.0, "pole": [0.8, 1.1]}
+                    yield {"row": row, "x": x, "params": fixed[row], "nfft": pair[0], "c": pair[1]}
+
+
+@sub("C05.longrec_grid", enum=enum_longrec, exhaustive=True, shards_quick=4, shards_thorough=4,
+     doc="the same on a fixed grid: every parametric row x real/complex x N in {600, 1025} x six grid pairs around N")
+def c05_longrec_grid(ctx, case):
+    c05_grid(ctx, case)
+
+
+@sub("C05.longrec", strategy=longrec_case(), quick=160, thorough=3000, shards_quick=4,
+     doc="records of 512..1200 samples, parametric rows, grid pairs straddling the record length (N/2 | N, N | 2N, N | 3N, N+-1, "
+         "N+40): same clauses as C05.grid (an estimator that switches to another way of forming its lags or products when the "
+         "record is long and the grid large enough is only seen here)")
+def c05_longrec(ctx, case):
+    c05_grid(ctx, case)
+
+
 # ---- high model orders ------------------------------------------------------------------------------------------------------
 @st.composite
 def highorder_case(draw):
